@@ -301,7 +301,7 @@ def r02g(R):
     A = R.A
     for modname, fname in ((EXPR, 'ExpressionParser._atom'),
                            (PARSE, 'Parser._rvalue')):
-        f = A.func(modname, fname)
+        f = A.normalised(A.func(modname, fname))
         cfg = A.cfg(f)
         # the flag: a local assigned from a comparison with '-'
         flags = []
